@@ -29,7 +29,7 @@ ALL = list(itertools.product(range(5), repeat=3))
 
 
 def gen_cases(tier, seed):
-    n = 64 if tier == "quick" else 7000
+    n = 128 if tier == "quick" else 7000
     rng0 = bases.rng_for("C07", seed, tier, "orders")
     pool = []
     while len(pool) < n * 3:
